@@ -70,6 +70,24 @@ def gen_case(rng, idx, tier):
         d = [F(rng.randint(1, 3)), F(rng.randint(-3, -1))]
         B = {"U": [F(0), F(0), F(1), F(1)], "P": [[L[0] - d[0], L[1] - d[1]], [L[0] + d[0], L[1] + d[1]]], "W": None}
         return {"kind": "bezier", "A": cv.enc_curve(A, "float"), "B": cv.enc_curve(B, "float"), "layout": "jump-end"}
+    if r < 0.31:
+        # the crossing sits at parameter 0 of both curves: transversal and interior (intervals straddling 0), or the common
+        # start point of two curves on [0, 1] (a meeting point at an end: soundness and no-duplicates only)
+        X = [F(rng.randint(-6, 6)), F(rng.randint(-6, 6))]
+        dA = [F(rng.randint(1, 4)), F(rng.randint(-3, 3))]
+        dB = [F(rng.randint(-3, 3)), F(rng.randint(1, 4))]
+        if dA[0] * dB[1] - dA[1] * dB[0] == 0:
+            dB = [-dA[1], dA[0]]
+        if rng.random() < 0.6:
+            lo, hi = rng.choice([(1, 2), (1, 1), (2, 1)])
+            mk = lambda d, lo, hi: {"U": [F(-lo), F(-lo), F(hi), F(hi)], "P": [[X[0] - lo * d[0], X[1] - lo * d[1]], [X[0] + hi * d[0], X[1] + hi * d[1]]], "W": None}
+            A, B = mk(dA, lo, hi), mk(dB, *rng.choice([(1, 2), (1, 1), (2, 1)]))
+            layout = "zero-params"
+        else:
+            mk = lambda d: {"U": [F(0), F(0), F(1), F(1)], "P": [list(X), [X[0] + d[0], X[1] + d[1]]], "W": None}
+            A, B = mk(dA), mk(dB)
+            layout = "common-start"
+        return {"kind": "polylines", "A": cv.enc_curve(A, "float"), "B": cv.enc_curve(B, "float"), "layout": layout}
     if r < 0.75:
         na, nb = rng.randint(1, 4), rng.randint(1, 4)
         A = polyline(rng, na, ((-10, 10), (-10, 10)))
